@@ -258,9 +258,6 @@ func (rn *runner) bootModel(cfg *Cfg, height uint64) {
 		tb[i] = strconv.Itoa(t)
 	}
 	rn.ask(fmt.Sprintf("env %d %d %s %s", cfg.Me+1, cfg.PMul, strings.Join(pw, ","), strings.Join(tb, ",")))
-	if futureQuorumLogged {
-		rn.ask("opt log-future-quorum 1")
-	}
 	rn.ask(fmt.Sprintf("boot %d", height))
 }
 
@@ -803,6 +800,38 @@ func (rn *runner) explore(cfg *Cfg, script []Input, startIdx int, ep *epoch, lin
 				rn.res.Hit("live-state-compared")
 			}
 		}
+		// pending timers: a timer the dead process had armed for the height the restarted node is at,
+		// and that had not fired, must be armed again by the restart (replay executes
+		// ScheduleTimeout; a pending timer has no log entry of its own)
+		if ep.pendAt[k] == 0 && (cfg.AppMode == "stable" || (cfg.AppMode == "store" && len(rec.app.lostValid) == 0)) && !nl.unlogged {
+			nCalls := len(ep.calls)
+			if k < n {
+				nCalls = ep.effects[k].Call + 1
+			}
+			fired := timersFired(ep, nCalls)
+			bootEff := 0
+			for bootEff < len(rec.effects) && rec.effects[bootEff].Input == -1 {
+				bootEff++
+			}
+			again := map[string]bool{}
+			for _, t := range timersArmed(rec, bootEff) {
+				again[t] = true
+			}
+			var hNow uint64
+			for _, c := range rec.calls {
+				if c.Input == -1 {
+					hNow = c.HAfter
+				}
+			}
+			for _, t := range timersArmed(ep, k) {
+				if fired[t] || again[t] || uint64(atoi(strings.Split(t, ":")[2])) != hNow {
+					continue
+				}
+				violate(lib.Violation{Sig: "pending-timer-not-armed-again-after-recovery",
+					What: fmt.Sprintf("the dead process had armed %s (not fired, its cause durable); the restarted node, at height %d, did not arm it", t, hNow), Replay: rp})
+			}
+			rn.res.Hit("pending-timers-compared")
+		}
 		// statistics
 		rn.res.Case(fmt.Sprintf("%v|%v|%v", *cfg, script, nl.kills), len(rec.loaded) > 0 || len(nl.votes) > 0)
 		rn.res.Hit(fmt.Sprintf("crash-depth-%d", depth+1))
@@ -839,6 +868,135 @@ func aliasedStart(ep *epoch) bool {
 		}
 	}
 	return false
+}
+
+// timersArmed: the timers (as timeout tokens t:step:h:r) the process armed with its first `upto`
+// effects; the j-th `timer:` effect of a call belongs to the j-th ScheduleTimeout action of that call.
+func timersArmed(ep *epoch, upto int) []string {
+	next := map[int]int{} // call -> number of ST actions already matched
+	var out []string
+	for i := 0; i < upto && i < len(ep.effects); i++ {
+		e := ep.effects[i]
+		if !strings.HasPrefix(e.Tok, "timer:") || e.Call < 0 {
+			continue
+		}
+		n := 0
+		for _, a := range ep.calls[e.Call].Acts {
+			if strings.HasPrefix(a, "ST:") {
+				if n == next[e.Call] {
+					out = append(out, "t:"+a[3:])
+					break
+				}
+				n++
+			}
+		}
+		next[e.Call]++
+	}
+	return out
+}
+
+// timersFired: the timeouts handed to the state machine by the first nCalls calls.
+func timersFired(ep *epoch, nCalls int) map[string]bool {
+	f := map[string]bool{}
+	for j := 0; j < nCalls && j < len(ep.calls); j++ {
+		if ep.calls[j].Kind == "t" {
+			f[ep.calls[j].In] = true
+		}
+	}
+	return f
+}
+
+// quiesce: a silent network — no more messages; every pending timer of the current height fires
+// (in the order armed), again and again until nothing new is armed. Returns what the node made
+// visible meanwhile and its final state.
+func quiesce(ep *epoch) (string, string, error) {
+	start := len(ep.effects)
+	done := map[string]bool{}
+	for round := 0; round < 12; round++ {
+		fired := timersFired(ep, len(ep.calls))
+		h := uint64(ep.real.Height())
+		var todo []Input
+		for _, t := range timersArmed(ep, len(ep.effects)) {
+			f := strings.Split(t, ":")
+			if fired[t] || done[t] || uint64(atoi(f[2])) != h {
+				continue
+			}
+			done[t] = true
+			todo = append(todo, Input{K: "t", Step: atoi(f[1]), H: h, R: atoi(f[3])})
+		}
+		if len(todo) == 0 {
+			break
+		}
+		for _, in := range todo {
+			if err := ep.feed(-2, in); err != nil {
+				return "", "", err
+			}
+		}
+	}
+	var vis []string
+	for _, e := range ep.effects[start:] {
+		if e.visible() {
+			vis = append(vis, e.Tok)
+		}
+	}
+	return strings.Join(vis, " "), dumpSM(ep.real), nil
+}
+
+// silentNetwork: restart on the image of crash point k and, separately, run an UNCRASHED twin
+// process over the inputs the dead process had taken; then let both face a silent network
+// (quiesce). The restarted node must do what the twin does: in particular a timer that was pending
+// at the crash exists after recovery only because replay executes ScheduleTimeout again.
+func (rn *runner) silentNetwork(cfg *Cfg, script []Input, ep *epoch, k int) {
+	j := -1
+	if k > 0 {
+		j = ep.effects[k-1].Input
+	}
+	rp := Replay{Cfg: *cfg, Script: script, Kills: []Kill{{K: k}}, Note: "after the restart the network is silent: only the pending timers fire"}
+	rec, err := startEpoch(cfg, rn.dir(), ep.snaps[ep.snapAt[k]], ep.chainAt[k], 1, -1)
+	if err != nil {
+		if rec != nil {
+			rec.stop()
+			rec.cleanup()
+		}
+		return // reported by explore
+	}
+	defer rec.cleanup()
+	rec.noDumps = true
+	tw, err := startEpoch(cfg, rn.dir(), "", cfg.C0, 0, -1)
+	if err != nil {
+		rn.res.Fatalf("silent-network twin could not start: %v", err)
+		rec.stop()
+		return
+	}
+	defer tw.cleanup()
+	tw.noDumps = true
+	for i := 0; i <= j && i < len(script); i++ {
+		if err := tw.feed(i, script[i]); err != nil {
+			rn.res.Fatalf("silent-network twin: %v", err)
+			break
+		}
+	}
+	visR, dumpR, errR := quiesce(rec)
+	visT, dumpT, errT := quiesce(tw)
+	rec.stop()
+	tw.stop()
+	if errR != nil || errT != nil {
+		violate(lib.Violation{Sig: "driver-hangs-in-silent-network", What: fmt.Sprint(errR, errT), Replay: rp})
+		return
+	}
+	rn.res.Compared(2)
+	rn.res.Hit("silent-network-compared")
+	if visT != "" {
+		rn.res.Hit("silent-network-twin-acts-on-timers")
+	}
+	if visR != visT {
+		violate(lib.Violation{Sig: "restarted-node-differs-from-uncrashed-twin-in-silent-network",
+			What:   fmt.Sprintf("with no more messages and all pending timers firing the uncrashed twin broadcasts [%s], the restarted node [%s]", visT, visR),
+			Replay: rp})
+	} else if dumpR != dumpT {
+		violate(lib.Violation{Sig: "restarted-node-state-differs-from-uncrashed-twin-in-silent-network",
+			What: "after the pending timers fired: " + diffHint(dumpR, dumpT), Replay: rp})
+	}
 }
 
 // graceful: the uncrashed process was stopped regularly (context cancelled in the select loop, Run
@@ -995,6 +1153,7 @@ func (rn *runner) rootCase(cfg *Cfg, script []Input, genLen int, r *lib.RNG, fix
 	defer ep.cleanup()
 	if script == nil {
 		w := newWorld(cfg, ep, r)
+		w.happyBias = genLen > 40
 		for i := 0; i < genLen; i++ {
 			in := w.next()
 			script = append(script, in)
@@ -1096,6 +1255,30 @@ func (rn *runner) rootCase(cfg *Cfg, script []Input, genLen int, r *lib.RNG, fix
 		return
 	}
 	rn.graceful(cfg, script, ep)
+	if cfg.AppMode == "stable" {
+		// silent network after the restart: prefer crash points right after a timer was armed
+		var cand, other []int
+		for k := 1; k <= len(ep.effects); k++ {
+			if ep.pendAt[k] != 0 {
+				continue
+			}
+			if strings.HasPrefix(ep.effects[k-1].Tok, "timer:") {
+				cand = append(cand, k)
+			} else {
+				other = append(other, k)
+			}
+		}
+		lib.Shuffle(r, cand)
+		lib.Shuffle(r, other)
+		cand = append(cand, other...)
+		lim := rn.f.Scale(3, 8)
+		if rn.exhaustive && !rn.deep {
+			lim = len(cand)
+		}
+		for i := 0; i < len(cand) && i < lim; i++ {
+			rn.silentNetwork(cfg, script, ep, cand[i])
+		}
+	}
 	if rn.noFault {
 		return
 	}
@@ -1281,6 +1464,14 @@ func directed() []Replay {
 			Cfg: Cfg{Powers: []uint64{1, 1, 1}, Tbl: []int{1, 0, 0}, PMul: 1, Me: 0, C0: 0, AppMode: "stable"},
 			Script: []Input{{K: "v", H: 2, R: 0, Sender: 1, Val: 2001}, {K: "v", H: 1, R: 0, Sender: 2, Val: 1001}, {K: "c", H: 2, R: 0, Sender: 1, Val: 2001},
 				{K: "c", H: 1, R: 0, Sender: 2, Val: 1001}, {K: "p", H: 3, R: 0, Sender: 1, VR: -1, Val: 3510}, {K: "v", H: 3, R: 0, Sender: 1, Val: 3510}}},
+		{Note: "a proposal arrives TWO heights early; two heights are decided in the same process; at its height it is not sent again and the (obsolete) propose timer fires",
+			Cfg: Cfg{Powers: eq4, Tbl: []int{1, 2}, PMul: 1, Me: 3, C0: 0, AppMode: "stable"},
+			Script: []Input{{K: "p", H: 3, R: 0, Sender: 2, VR: -1, Val: 64}, {K: "v", H: 3, R: 0, Sender: 0, Val: 64},
+				{K: "p", H: 1, R: 0, Sender: 2, VR: -1, Val: 41}, {K: "v", H: 1, R: 0, Sender: 0, Val: 41}, {K: "v", H: 1, R: 0, Sender: 1, Val: 41},
+				{K: "c", H: 1, R: 0, Sender: 0, Val: 41}, {K: "c", H: 1, R: 0, Sender: 1, Val: 41},
+				{K: "p", H: 2, R: 0, Sender: 1, VR: -1, Val: 53}, {K: "v", H: 2, R: 0, Sender: 0, Val: 53}, {K: "v", H: 2, R: 0, Sender: 1, Val: 53},
+				{K: "c", H: 2, R: 0, Sender: 0, Val: 53}, {K: "c", H: 2, R: 0, Sender: 1, Val: 53},
+				{K: "t", Step: 0, H: 3, R: 0}, {K: "v", H: 3, R: 0, Sender: 1, Val: 64}, {K: "c", H: 3, R: 0, Sender: 0, Val: 64}}},
 		{Note: "messages of the next height arrive early and decide the node's votes there; obsolete timers fire late",
 			Cfg: Cfg{Powers: eq4, Tbl: []int{1, 2}, PMul: 1, Me: 3, C0: 0, AppMode: "stable"},
 			Script: []Input{{K: "p", H: 1, R: 0, Sender: 2, VR: -1, Val: 41}, {K: "v", H: 1, R: 0, Sender: 0, Val: 41}, {K: "v", H: 1, R: 0, Sender: 1, Val: 41},
@@ -1300,6 +1491,12 @@ func main() {
 	defer os.RemoveAll(base)
 	res.SetExtra("scratch", filepath.Dir(base))
 	res.SetExtra("real_machine_logs_future_quorum_precommit", futureQuorumLogged)
+	if !futureQuorumLogged {
+		// regression of b154634
+		violate(lib.Violation{Sig: "future-quorum-precommit-counted-but-not-logged",
+			What:   "probe on the real state machine: the precommit that completes a quorum of a future height returns no WriteWAL although it is counted",
+			Replay: Replay{Note: "4 equal validators, node 4 at height 1 after ProcessStart: precommits c:3:0:{1,2,3}:9"}})
+	}
 
 	if f.Replay != "" {
 		var file struct {
@@ -1362,7 +1559,11 @@ func main() {
 		if i%10 == 4 {
 			cfg.AppMode = "store"
 		}
-		jobs = append(jobs, job{cfg: cfg, n: r.Range(4, f.Scale(26, 40)), id: uint64(i)})
+		n := r.Range(4, f.Scale(26, 40))
+		if i%7 == 3 {
+			n = 48 // long in-process runs over several heights (mostly happy rounds), crashed late too
+		}
+		jobs = append(jobs, job{cfg: cfg, n: n, id: uint64(i)})
 	}
 	workers := 12
 	ch := make(chan job)
